@@ -26,6 +26,7 @@ RULE = (
     "Non-trivial = >=1 spectrum and >=1 peptide with multiplicity >=2 whose best and second-best rows differ in "
     "label or peptide; distinct = case parameters."
     " cli_multi: the command-line tool on 2..3 PIN files named in non-sorted order (with / without --file_root, 1..2 workers): per-stem result files hold that file's PSMs only and are judged like a single collection."
+    " rollup_tool collections are named set<i> / rollup_<i> / run<i> with --file_root run / set<i> with --file_root se."
 )
 ASSUMPTIONS = [
     "output column names are read from the written header; only PSMId, peptide, proteinIds, score, q-value and the level columns are interpreted",
@@ -203,6 +204,10 @@ def run_rollup_tool(case):
     rng = core.seed_seq(case["seed"], "C03", "rollup", case["index"])
     res = Result(case)
     roll = core.mk("mokapot.brew_rollup")
+    # names of the input collections relative to the rollup's file root: unrelated, or beginning with the same text
+    # (collections run0, run1 rolled up with --file_root run; a collection called rollup_0 with the default root)
+    coll, froot = [("set{i}.", None), ("rollup_{i}.", None), ("run{i}.", "run"), ("set{i}.", "se")][case["index"] % 4]
+    root_out = (froot or "rollup")
     with core.scratch("c03r") as d:
         src = d / "src"
         src.mkdir()
@@ -215,7 +220,7 @@ def run_rollup_tool(case):
                 s = np.round(s * 2) / 2
             p = psm.write_pin(tab, d / f"s{si}.pin")
             ds = pipeline.read_datasets([p])
-            c = pipeline.run_confidence(ds, [s.astype(float)], src, decoys=True, file_root=f"set{si}.", rng=1)
+            c = pipeline.run_confidence(ds, [s.astype(float)], src, decoys=True, file_root=coll.format(i=si), rng=1)
             if not c.ok:
                 res["status"] = "refused" if c.explicit else "inconclusive"
                 res["note"] = "producer failed: " + c.sig
@@ -227,9 +232,10 @@ def run_rollup_tool(case):
         base = ["psm", "psm", "peptide", "precursor"][case["index"] % 4]
         if base == "precursor" and "Precursor" not in case["levels"]:
             base = "peptide"
-        c = core.Call(roll.main, ["--level", base, "--src_dir", str(src), "--dest_dir", str(dest), "--verbosity", "0"])
+        c = core.Call(roll.main, ["--level", base, "--src_dir", str(src), "--dest_dir", str(dest), "--verbosity", "0"]
+                      + (["--file_root", froot] if froot else []))
         res.count("rollup_calls")
-        extra = dict(nsets=case["nsets"], levels=case["levels"], ties=case["ties"], base=base)
+        extra = dict(nsets=case["nsets"], levels=case["levels"], ties=case["ties"], base=base, collections=coll, file_root=root_out)
         if not c.ok:
             if c.info.get("file") == "peps.py":
                 res["status"] = "refused"
@@ -257,7 +263,7 @@ def run_rollup_tool(case):
                  "precursor": ["Precursor", "ModifiedPeptide", "PeptideGroup", "Peptide"]}[base]
         for lc in [l for l in ["Peptide"] + list(case["levels"]) if l in reach]:
             lvl = colmap[lc]
-            fl = {"targets": out.get(f"rollup.targets.{lvl}s"), "decoys": out.get(f"rollup.decoys.{lvl}s")}
+            fl = {"targets": out.get(f"{root_out}.targets.{lvl}s"), "decoys": out.get(f"{root_out}.decoys.{lvl}s")}
             if fl["targets"] is None or fl["decoys"] is None:
                 res.violate("missing_result_file", lvl, files=sorted(out), **extra)
                 return res
